@@ -23,8 +23,15 @@ PLAN = dict(
                     "C08_sim_literal/op/op_undefined/ifc (12 jump forms)/substitute/call/exit/create/invoke for every context within capacity, "
                     "C08_sim_exec (induction on fuel, progress included), program level C08_codegen_simulates_int / _cf under boolean hypotheses "
                     "(int_frag / cf_frag, lin_check_prog, asm_wf of the emitted code, entry definition with <= 14 parameters, length args = n), "
-                    "non-vacuity examples evaluated on both machines, refutations without the arity / capacity hypothesis; for programs with heap "
-                    "objects the composition rv_codegen_correct is stated, not proved. Correspondence: model "
+                    "non-vacuity examples evaluated on both machines, refutations without the arity / capacity hypothesis; heap statements for objects "
+                    "and captured environments of at most three fields (one block): memory layer against the abstract allocator Model/Heap.v "
+                    "(C08_rv_store_object_heap, _load_object_heap, _weakening_contraction_heap), relation hrel between the pointer-instrumented "
+                    "linear machine Sem/AxHeap.v and ISA states, C08_sim_store/load/substitute_objects/let/switch/create_captured/invoke_captured, "
+                    "C08_sim_exec_heap, program level C08_codegen_simulates_partial (hypotheses h_frag, entry_int, lin_check_prog, ann_check_prog, "
+                    "asm_wf, code_small, <= 14 parameters, length args = n, heap_fits: the run stays inside the 32 MiB heap region, decided by "
+                    "fits_run), C08_codegen_correct_linearized_partial for outputs of the linearization pass, example with let/switch/shared and "
+                    "dropped objects/closure capturing an integer evaluated on both machines; objects with more than three fields (chains of "
+                    "blocks) are NOT covered by the simulation, for them rv_codegen_correct is stated only. Correspondence: model "
                     "instruction list = Rust instruction list (comments dropped), model rendering of the Rust list (comments kept) = Rust "
                     "routine text verbatim, Rust panic <=> model Err. Semantics: for print-free programs the Rust-emitted code run on "
                     "Sem/RVSem.v gives the observation of Sem/AxSem.run_linear for every argument tuple whose reference run exits or hits "
